@@ -82,7 +82,7 @@ PROPS = {
         technique="Lean 4 proof (lookup characterisation of folds, permutation invariance) + black-box correspondence in three directions",
     ),
     "C13": dict(
-        modules=["Copia.Props.C13", "Copia.Props.C13b", "Copia.Props.C13c", "Copia.Props.C13d", "Copia.Props.C11c", "Copia.Props.C13e", "Copia.Props.C11d", "Copia.Props.C13f"], namespaces=["Copia.C13"], runner="bb", bb_module="bb_hubsync",
+        modules=["Copia.Props.C13", "Copia.Props.C13b", "Copia.Props.C13c", "Copia.Props.C13d", "Copia.Props.C11c", "Copia.Props.C13e", "Copia.Props.C11d", "Copia.Props.C13f", "Copia.Props.C12b"], namespaces=["Copia.C13", "Copia.C12.source_serve_is_model"], runner="bb", bb_module="bb_hubsync",
         assumptions=_HUB_ASSUME + ["the hub side is the sequential CAS-Put semantics (its atomicity under concurrency is C03); a local tree with a top-level `.copia` directory is refused by the (repaired) hub and hub-sync reports the error",
                                    "interference is modelled per Put (stale `expected`); an environment that deletes files is outside 'still retrievable'"],
         trusted_base=_HUB_TB + ["tools/sshstub/ssh and tools/sshrelay (pausing relay) as SSH stand-ins"],
